@@ -268,6 +268,27 @@ def main():
                     twin_errs.append((ob['name'][:-5], 'twin %s: counterexample args not parseable: %s' % (ob['name'], res['messages'])))
                     continue
                 nat = native_replay(ob, args, trace=True, twin=True)
+                if nat.get('returned') is not False and (nat.get('reason') or nat.get('exception')):
+                    # The solver-generated witness FAILS the property when run natively although the symbolic run passed it: the
+                    # engine executes some construct differently from CPython (e.g. functools caches are bypassed under tracing, so
+                    # state carried in a cache is invisible symbolically). The native run is the real code: confirm without the
+                    # twin flag and report it as a violation with its replay file.
+                    mob = dict(ob, twin=False, name=ob['name'][:-5])
+                    nat2 = native_replay(mob, args)
+                    if (nat2.get('returned') is False) or nat2.get('exception'):
+                        reason = nat2.get('reason') or ('exception: %s' % nat2.get('exception'))
+                        digest = hashlib.sha1(json.dumps([mob['name'], args], sort_keys=True).encode()).hexdigest()[:10]
+                        kf = match_known(known, mob['name'], reason)
+                        rp = os.path.join(replay_root, pid, ('known-' if kf else '') + re.sub(r'[^A-Za-z0-9_.-]', '_', mob['name']) + '-' + digest + '.json')
+                        json.dump({'property': pid, 'obligation': mob['name'], 'module': mob['module'], 'fn': mob.get('replay_fn', mob['fn']),
+                                   'cfg': mob['cfg'], 'args': args, 'observed': nat2,
+                                   'crosshair_message': 'witness of the reachability twin; fails only natively (engine/native divergence)',
+                                   'replay_cmd': './vcheck replay ' + os.path.relpath(rp, ROOT)}, open(rp, 'w'), indent=1)
+                        if kf:
+                            known_hit.append((kf, mob['name'], reason, rp))
+                        else:
+                            violations.append((mob['name'], reason + ' [native run of a solver-generated witness]', rp, args))
+                        continue
                 if nat.get('returned') is not False:
                     # twin sample must reach the end natively too
                     twin_errs.append((ob['name'][:-5], 'twin %s: sample %s does not reach the final assertion natively (%s)' % (ob['name'], args, nat)))
